@@ -45,7 +45,39 @@ def expand_goal(goal, hyps=(), limit=24):
     return out
 
 
+_HINT_CACHE = {}      # formula id -> (formula kept alive, hint terms found inside it); path conditions are shared by many obligations
+_HINT_APP = {}        # term id -> (term, hint application)
+
+
 def _hint_terms(formulas):
+    out, seen = [], set()
+    for f in formulas:
+        k = f.get_id()
+        ent = _HINT_CACHE.get(k)
+        if ent is None or not ent[0].eq(f):
+            ent = (f, _hint_terms_of([f]))
+            if len(_HINT_CACHE) > 200000:
+                _HINT_CACHE.clear()
+            _HINT_CACHE[k] = ent
+        for t in ent[1]:
+            if t.get_id() not in seen:
+                seen.add(t.get_id())
+                out.append(t)
+    return out
+
+
+def _hint_app(t):
+    ent = _HINT_APP.get(t.get_id())
+    if ent is None or not ent[0].eq(t):
+        h = z3.Function("hint!" + str(t.sort()).replace(" ", "_").replace("(", "<").replace(")", ">"), t.sort(), z3.BoolSort())
+        if len(_HINT_APP) > 200000:
+            _HINT_APP.clear()
+        ent = (t, h(t))
+        _HINT_APP[t.get_id()] = ent
+    return ent[1]
+
+
+def _hint_terms_of(formulas):
     """ground, trigger-eligible terms that occur only inside quantifier bodies are invisible to E-matching;
     collect them so that they can be registered as ground terms (hint assertions carry no logical content)"""
     found = {}
@@ -87,17 +119,23 @@ def _hint_terms(formulas):
 
 
 def to_smt2_parts(pc, hyps, atom, extra_hints=(), split_terms=()):
-    s = z3.Solver()
-    fs = list(pc) + list(hyps) + [z3.Not(atom)]
-    for f in fs:
-        s.add(f)
+    fs = [f for f in list(pc) + list(hyps) + [z3.Not(atom)] if not z3.is_true(f)]
     hints = _hint_terms(fs) + list(extra_hints)
+    seen = set()
     for t in hints:
-        h = z3.Function("hint!" + str(t.sort()).replace(" ", "_").replace("(", "<").replace(")", ">"), t.sort(), z3.BoolSort())
-        s.add(h(t))
+        if t.get_id() not in seen:
+            seen.add(t.get_id())
+            fs.append(_hint_app(t))
     for t in split_terms:
-        s.add(z3.Function("split!Int", z3.IntSort(), z3.BoolSort())(t))
-    return s.to_smt2().replace("(check-sat)\n", "")
+        fs.append(z3.Function("split!Int", z3.IntSort(), z3.BoolSort())(t))
+    # the same text Solver.to_smt2() would print, without adding the assertions to a solver one by one
+    ctx = z3.main_ctx()
+    n = len(fs) - 1
+    arr = (z3.Ast * n)()
+    for i in range(n):
+        arr[i] = fs[i].as_ast()
+    text = z3.Z3_benchmark_to_smtlib_string(ctx.ref(), "pyvc", "", "unknown", "", n, arr, fs[-1].as_ast())
+    return text.replace("(check-sat)\n", "")
 
 
 def to_smt2(ob):
